@@ -396,6 +396,39 @@ def a_split_bars(s, a):
     return {"bars": tracks, "own": a["pos"]}
 
 
+BAR_SIGS = [(4, 4), (3, 4), (2, 4), (6, 8), (2, 2), (5, 4), (3, 8), (12, 8), (7, 8)]
+
+
+def g_make_bar(rng, seq):
+    d = _duration(seq)
+    fits = [sg for sg in BAR_SIGS if 24 * 4 * sg[0] // sg[1] >= d]
+    n, dn = rng.choice(fits) if fits and rng.random() < 0.9 else rng.choice(BAR_SIGS)
+    return {"sig": [n, dn], "key": rng.choice([None, None, "C", "Eb"])}
+
+
+def a_make_bar(s, a):
+    """Bar(sequence, n, d): the constructor drives the sequence through normalise / pad / messages_rel / overwrite /
+    add_relative_message (and writes a staleness flag directly); the sequence stays the subject."""
+    from scoda.elements.bar import Bar
+    b = Bar(s, a["sig"][0], a["sig"][1], Key(a["key"]) if a.get("key") else None)
+    return [b.time_signature_numerator, b.time_signature_denominator,
+            b.key_signature.value if b.key_signature is not None else None, b.sequence is s]
+
+
+def pre_make_bar(s, a):
+    # a sequence longer than the bar, or carrying another / a second signature, is refused by the constructor (C10's
+    # business) after it has already normalised the sequence; keep such calls out of the histories
+    d = _duration(s)
+    if d > 24 * 4 * a["sig"][0] // a["sig"][1]:
+        return False
+    try:
+        ev = observe.canon_value(s)[0]
+    except Exception:
+        return False
+    ts = [e for e in ev if e[1] == "time_signature"]
+    return len(ts) == 0 or (len(ts) == 1 and (ts[0][5], ts[0][6]) == tuple(a["sig"]))
+
+
 _TOKENISER = []
 
 
@@ -519,7 +552,7 @@ def pre_pad(s, a):
 
 
 MAX_TICKS = 20000
-PRECOND = {"scale": pre_scale, "pad": pre_pad}
+PRECOND = {"scale": pre_scale, "pad": pre_pad, "Bar()": pre_make_bar}
 
 # ------------------------------------------------------------------ the table
 
@@ -542,6 +575,7 @@ OPS = {
     "quantise_and_normalise": (MUT, g_qan, a_qan, 3, True),
     "direct_edit": (DIRECT, g_direct, a_direct, 4, False),
     "tokenise": (MUT, g_none, a_tokenise, 2, True),
+    "Bar()": (MUT, g_make_bar, a_make_bar, 3, False),
     "split": (VAL, g_split, a_split, 4, False),
     "copy": (VAL, g_none, a_copy, 3, False),
     "equals": (VAL, g_equals, a_equals, 2, True),
